@@ -219,7 +219,7 @@ def build_cases(ctx):
         n = rng.randrange(1, 6)
         wcases.append({"case": "w", "fast": rng.random() < 0.5, "msgs": pop[i:i + n]})
         i += n
-    for _ in range(ctx.pick(60, 1500)):
+    for _ in range(ctx.pick(60, 3000)):
         msgs = [g.random_msg(False) for _ in range(rng.randrange(1, 6))]
         if rng.random() < 0.4:                                   # serve the same request twice (second one -> reject)
             ps = [m for m in msgs if m["k"] == "piece"]
@@ -268,7 +268,7 @@ def build_cases(ctx):
         if not ctx.quick():
             modes += ["rand", "rand", "prefix"]
         add_stream(msgs, rng.random() < 0.25, modes)
-    for _ in range(ctx.pick(40, 1200)):
+    for _ in range(ctx.pick(40, 2000)):
         msgs = [g.random_msg(True) for _ in range(rng.randrange(1, 6))]
         for _ in range(rng.randrange(3)):
             msgs.insert(rng.randrange(len(msgs) + 1), g.noise())
@@ -483,9 +483,8 @@ def run(ctx):
     # 1. design level: Decode(any fragmentation of Encode(script)) = script, upload count, injectivity
     replay = getattr(ctx, "replay", None)
     if not os.environ.get("VERIF_C11_NOMC") and not replay:                     # development switch (mutation runs): skip the design-level part
-        ctx.tlc_mc("MC_Wire", "MC_Wire.cfg", timeout=1500)
-        if not ctx.quick():
-            ctx.tlc_mc("MC_Wire", "MC_Wire_big.cfg", timeout=2400)
+        # LEVEL 2 (thorough) is a superset of LEVEL 1 (quick)
+        ctx.tlc_mc("MC_Wire", ctx.pick("MC_Wire.cfg", "MC_Wire_big.cfg"), timeout=ctx.pick(1500, 3000))
     # 2. generation + TLC-printed encodings
     drv = ctx.build_go("c11")
     ka = None
@@ -516,7 +515,7 @@ def run(ctx):
         wcases, rcases, genmsgs = build_cases(ctx)
     heads = tlc_encode(ctx, genmsgs)
     # 3. real code
-    per = ctx.pick(1000, 600)
+    per = ctx.pick(1000, 2500)
     allc = wcases + rcases
     ctx.extra["writer_scripts"] = len(wcases)
     ctx.extra["reader_streams_x_chunkings"] = len(rcases)
